@@ -123,9 +123,10 @@ def main():
         sh("git checkout -- .", cwd="/repo")
     dst = os.path.join(ROOT, "neutral" if a.neutral else "seeded", a.seed_id)
     os.makedirs(dst, exist_ok=True)
-    shutil.copy(patch, os.path.join(dst, "patch.diff"))
-    if demo:
-        shutil.copy(demo, os.path.join(dst, "demo.rs"))
+    if os.path.abspath(patch) != os.path.abspath(os.path.join(dst, "patch.diff")):
+        shutil.copy(patch, os.path.join(dst, "patch.diff"))
+        if demo:
+            shutil.copy(demo, os.path.join(dst, "demo.rs"))
     json.dump({
         "property": prop,
         "summary": meta.get("summary"),
